@@ -25,9 +25,9 @@ def handle (line : String) : String :=
     | some t => canon (randomTree (fun i => nodes.getD i "?") nodes.length t)
     | none => "bad-op"
   | [("rconn" :: k :: nodes), t, picks] =>
-    match k.toNat?, t.mapM parsePair?, picks.mapM parsePair? with
+    match k.toInt?, t.mapM parsePair?, picks.mapM parsePair? with
     | some k, some t, some picks =>
-      match randomConnected (fun i => nodes.getD i "?") nodes.length k t picks with
+      match randomConnectedZ (fun i => nodes.getD i "?") nodes.length k t picks with
       | .ok g => canon g
       | .valueError => "ValueError"
       | .indexError => "IndexError"
